@@ -159,21 +159,30 @@ def run_tape_json(pid: str, tape_json: dict):
 
 
 def minimise_job(pid: str, viol: dict) -> dict:
+    """Shrink the tape in this worker.  If the violation does not reproduce here (state leaked
+    between runs of this process - itself a symptom some violations have) or the shrunk tape
+    stops failing, fall back to the original tape; the fresh-process replay decides."""
     from sim.minimize import minimise
 
     faulthandler.enable()
     _pin()
     mod = load_prop(pid)
     runner = getattr(mod, "run_streams", None) or (lambda tp: mod.run(tp))
-    o0 = runner(Tape(streams=viol["tape"]["streams"]))
-    if o0.sig is None or list(o0.sig) != list(viol["sig"]):
-        return {"ok": False, "why": "violation did not reproduce in-process before minimisation",
-                "got": list(o0.sig) if o0.sig else None}
-    streams, runs = minimise(runner, viol["tape"]["streams"], tuple(viol["sig"]), o0.known,
-                             **getattr(mod, "MINIMISE", {}))
-    o = runner(Tape(streams=streams))
-    return {"ok": True, "streams": streams, "runs": runs, "sig": list(o.sig), "detail": o.detail,
-            "decoded": o.decoded, "known": o.known}
+    orig = {"ok": True, "streams": viol["tape"]["streams"], "runs": 0, "sig": list(viol["sig"]), "detail": viol["detail"],
+            "decoded": viol["decoded"], "known": None, "minimised": False}
+    try:
+        o0 = runner(Tape(streams=viol["tape"]["streams"]))
+        if o0.sig is None or list(o0.sig) != list(viol["sig"]):
+            return orig
+        streams, runs = minimise(runner, viol["tape"]["streams"], tuple(viol["sig"]), o0.known,
+                                 **getattr(mod, "MINIMISE", {}))
+        o = runner(Tape(streams=streams))
+        if o.sig is None or list(o.sig) != list(viol["sig"]):
+            return orig
+        return {"ok": True, "streams": streams, "runs": runs, "sig": list(o.sig), "detail": o.detail,
+                "decoded": o.decoded, "known": o.known, "minimised": True}
+    except Exception:
+        return orig
 
 
 def replay_file(pid: str, path: str) -> int:
@@ -418,6 +427,16 @@ def main() -> int:
                 with open(path, "w") as f:
                     json.dump(rep, f, indent=1, default=repr)
                 sig, p = fresh_replay_sig(pid, path)
+                if sig != m["sig"] and m.get("minimised"):
+                    # the shrunk tape does not replay in a fresh process: retry with the original tape
+                    rep["tape"] = v["tape"]
+                    rep["minimisation_runs"] = 0
+                    rep["signature"] = v["sig"]
+                    rep["detail"], rep["decoded"] = v["detail"], v["decoded"]
+                    m = dict(m, sig=v["sig"], minimised=False)
+                    with open(path, "w") as f:
+                        json.dump(rep, f, indent=1, default=repr)
+                    sig, p = fresh_replay_sig(pid, path)
                 if sig != m["sig"]:
                     harness_msgs.append(f"minimised violation did not reproduce in a fresh process: {sig} vs {m['sig']}\n{p.stdout[-1500:]}{p.stderr[-1500:]}")
                     continue
